@@ -315,6 +315,11 @@ EvConc(e) ==
         ELSE TRUE
   /\ Bystanders(e, 0)
   /\ UNCHANGED <<pool, from, contig, enc, memo, diag, prog>> /\ KeepStream
+(* the first encoding of one program, executed in several worker processes (different hash seeds) *)
+EvXProc(e) ==
+  /\ NoteIf(\E j \in 2..Len(e.outs) : e.outs[j] # e.outs[1], "C11", "another process wrote the same packet as different bytes",
+            [n |-> Len(e.outs)])
+  /\ UNCHANGED <<pool, from, contig, enc, memo, diag, prog>> /\ KeepStream
 EvRace(e) ==
   /\ Note("C13", "data race reported by the Go race detector", [sites |-> e.sites])
   /\ UNCHANGED <<pool, from, contig, enc, memo, diag, prog>> /\ KeepStream
@@ -340,6 +345,7 @@ Step(e) ==
   ELSE IF e.ev = "VBIDec" THEN EvVBIDec(e)
   ELSE IF e.ev = "Conc" THEN EvConc(e)
   ELSE IF e.ev = "Race" THEN EvRace(e)
+  ELSE IF e.ev = "XProc" THEN EvXProc(e)
   ELSE EvOther(e)                                  \* Done, Skip, Buf
 
 (***************************************************************************)
